@@ -12,8 +12,8 @@ with key set `K`; `Ev.dis K` — `distrust()` was entered with `K`; `Ev.fired e`
 `e` was fetched by `makePostponedTrustDecisions()` to be applied.
 
 All theorems quantify over every state `s` (reachable or not) unless a history is mentioned, and
-over arbitrary account / key / resource numbers.  Model of the tree at repo commit a532e12 (scope re-check when
-held-back decisions are applied).
+over arbitrary account / key / resource numbers.  Model of the tree at repo commit 845d75c (scope re-check when
+held-back decisions are applied, a532e12, and when they are discarded by a distrust, 845d75c).
 -/
 namespace Qx.C18
 
@@ -79,31 +79,24 @@ The store files a held-back decision under the sender's key ID alone and removes
 /-- What the property's second sentence implies for a contact's message: it can make held-back decisions
 disappear (by firing, by discarding, by overwriting) only if they are about the contact's own account —
 decisions about other accounts, sent by other devices, wait for THEIR sender key to be authenticated or
-distrusted.  **FALSE for the code as it is**, by two mechanisms: the two defect theorems below. -/
+distrusted.  **FALSE for the code as it is** by one remaining mechanism, supersession: defect theorem below.
+(The second mechanism — `distrust()` removing what is held under a key ID whatever account it belongs to, witness
+`[msg from 2 (key 1): 2:2 trusted; manual authenticate 1:3; msg from 1 (key 3): 1:1 DIStrusted]` — was fixed in
+repo commit 845d75c; the witness stays in the harness corpus.) -/
 def ContactTouchesOnlyOwnHeldDecisions : Prop :=
   ∀ (c : Cfg) (ops : List Op) (m : Msg) (e : Entry),
     e ∈ (runStore c {} ops).1.postponed →
     e ∉ (stepStore c (runStore c {} ops).1 (.message m)).1.postponed →
     m.fromAcc = c.own ∨ e.owner = m.fromAcc
 
-/-- **Defect (finding `C18:cross-account-discard`, mechanism 1: distrust).**  `distrust()` removes the held-back entries
-by sender key ID whatever account that ID belongs to.  Own account 0; account 2's not yet authenticated
-device with key id 1 says "2:2 is trusted" (held back); the user authenticates key 3 of account 1; account 1,
-using key 3, says "1:1 is DIStrusted" — i.e. names key id 1 as one of its own.  The decision of account 2's
-device is thrown away although key 1 of account 2 was neither authenticated nor distrusted; authenticating it
-later applies nothing (second part). -/
-theorem C18_defect_cross_account_discard_by_distrust : ¬ ContactTouchesOnlyOwnHeldDecisions := by
-  intro h
-  have h1 := h ⟨0, 0⟩
-    [.message ⟨2, 1, 1, true, [⟨2, [2], []⟩]⟩, .manual 1 [3] []]
-    ⟨1, 1, 3, true, [⟨1, [], [1]⟩]⟩ ⟨1, 2, 2, true⟩ (by decide) (by decide)
-  revert h1
-  decide
+/-- the 845d75c witness: account 2's held decision survives account 1's "1:1 distrusted" and is applied when the
+user authenticates 2:1 -/
+example : (⟨1, 2, 2, true⟩ : Entry) ∈ (runStore ⟨0, 0⟩ {} [.message ⟨2, 1, 1, true, [⟨2, [2], []⟩]⟩, .manual 1 [3] [],
+      .message ⟨1, 1, 3, true, [⟨1, [], [1]⟩]⟩]).1.postponed ∧
+    (runStore ⟨0, 0⟩ {} [.message ⟨2, 1, 1, true, [⟨2, [2], []⟩]⟩, .manual 1 [3] [],
+      .message ⟨1, 1, 3, true, [⟨1, [], [1]⟩]⟩, .manual 2 [1] []]).1.level 2 2 = .authenticated := by decide
 
-example : (runStore ⟨0, 0⟩ {} [.message ⟨2, 1, 1, true, [⟨2, [2], []⟩]⟩, .manual 1 [3] [],
-    .message ⟨1, 1, 3, true, [⟨1, [], [1]⟩]⟩, .manual 2 [1] []]).1.level 2 2 = .undecided := by decide
-
-/-- **Defect (finding `C18:cross-account-discard`, mechanism 2: supersession).**  `makePostponedTrustDecisions` removes what it
+/-- **Defect (finding `C18:cross-account-discard`).**  `makePostponedTrustDecisions` removes what it
 applies by verdict and key ID, whatever the owner and the sender.  Own account 0; account 2's device key 1
 says "2:2 is distrusted", account 1's device key 4 says "1:2 is distrusted" (both held back); the user
 authenticates key 3 of account 1; account 1, using key 3, says "1:4 is trusted": the entry held under key id 4
@@ -120,15 +113,13 @@ example : (runStore ⟨0, 0⟩ {} [.message ⟨2, 1, 1, true, [⟨2, [], [2]⟩]
     .manual 1 [3] [], .message ⟨1, 1, 3, true, [⟨1, [4], []⟩]⟩, .manual 2 [1] []]).1.level 2 2 = .undecided := by decide
 
 /-- **What does hold (every state).**  A held-back entry that disappears during a message from account `S` is
-about `S`'s own account (or `S` is the own account) — or it shares a key ID with a key of `S`: it was superseded
-by a fired entry about a key of `S` with the same ID and verdict, or `distrust()` ran on a key of `S` with the
-entry's sender key ID.  Missing for the full statement: the last two disjuncts (the two defects). -/
+about `S`'s own account (or `S` is the own account) — or it was superseded: a fired entry about a key of `S`
+carries the same verdict for the same key ID.  Missing for the full statement: the last disjunct (the defect). -/
 theorem contact_touches_only_own_held_decisions_partial (c : Cfg) (s : Store) (m : Msg) (e : Entry)
     (he : e ∈ s.postponed) (hgone : e ∉ (stepStore c s (.message m)).1.postponed) :
     m.fromAcc = c.own ∨ e.owner = m.fromAcc ∨
     (∃ e', Ev.fired e' ∈ (stepStore c s (.message m)).2 ∧ e' ≠ e ∧ e'.owner = m.fromAcc ∧
-        e'.key = e.key ∧ e'.trust = e.trust) ∨
-    (∃ K, Ev.dis K ∈ (stepStore c s (.message m)).2 ∧ e.sender ∈ K.map (·.2) ∧ ∀ r ∈ K, r.1 = m.fromAcc) := by
+        e'.key = e.key ∧ e'.trust = e.trust) := by
   by_cases hown : m.fromAcc = c.own
   · exact Or.inl hown
   right
@@ -148,10 +139,15 @@ theorem contact_touches_only_own_held_decisions_partial (c : Cfg) (s : Store) (m
         (namedTrusted (inScope c m)) (namedDistrusted (inScope c m))
         (by intro r hr; obtain ⟨ko, hko, k, _, rfl⟩ := (mem_namedTrusted _ _).mp hr; exact hjid ko hko)
         (by intro r hr; obtain ⟨ko, hko, k, _, rfl⟩ := (mem_namedDistrusted _ _).mp hr; exact hjid ko hko)
-      rcases (makeTrustDecisions_good (own := c.own) s _ _).removed e he hgone with h | ⟨e', h1, h2, h3, h4⟩ | ⟨K, hK, hs⟩
+      rcases (makeTrustDecisions_good (own := c.own) s _ _).removed e he hgone with h | ⟨e', h1, h2, h3, h4⟩ | ⟨K, hK, _, hq⟩
       · exact Or.inl (hfired e h)
-      · exact Or.inr (Or.inl ⟨e', h1, h2, hfired e' h1, h3, h4⟩)
-      · exact Or.inr (Or.inr ⟨K, hK, hs, hdis K hK⟩)
+      · exact Or.inr ⟨e', h1, h2, hfired e' h1, h3, h4⟩
+      · left
+        rcases hq with hq | hq
+        · obtain ⟨r, hr, hro⟩ := List.mem_map.mp hq
+          exact absurd ((hdis K hK r hr).symm.trans hro) hown
+        · obtain ⟨r, hr, hro⟩ := List.mem_map.mp hq
+          rw [← hro]; exact hdis K hK r hr
     · rw [handleMessage_unauth _ _ _ hp ha] at hgone
       left
       rcases foldl_addOne_old (holdEntries m.senderKey (inScope c m)) s.postponed e he with h | ⟨x, hx, _, ho, _⟩
@@ -306,13 +302,14 @@ theorem fired_takes_effect (c : Cfg) (s : Store) (op : Op) (e : Entry)
 
 /-- **Held until decided.**  A held-back entry leaves the store during a manual operation or a message
 from an authenticated sender only by (i) firing, (ii) being superseded by a fired entry with the same
-verdict for the same key id, or (iii) `distrust()` running on a key with its sender key id.
+verdict for the same key id, or (iii) `distrust()` running on a key set that contains its sender key id and has
+it in scope (an own key, or a key of the entry's owner, in the set).
 (For a message from an unauthenticated sender see the last clause of `held_back`.) -/
 theorem held_entry_leaves_only_when (c : Cfg) (s : Store) (op : Op) (e : Entry) (he : e ∈ s.postponed)
     (hgone : e ∉ (stepStore c s op).1.postponed)
     (hop : ∀ m, op = .message m → s.level m.fromAcc m.senderKey = .authenticated) :
     Ev.fired e ∈ (stepStore c s op).2 ∨ Superseded (stepStore c s op).2 e ∨
-    ∃ K, Ev.dis K ∈ (stepStore c s op).2 ∧ e.sender ∈ K.map (·.2) := by
+    ∃ K, Ev.dis K ∈ (stepStore c s op).2 ∧ e.sender ∈ K.map (·.2) ∧ InScopeOf c.own K e := by
   cases op with
   | setPolicy p => exact absurd he hgone
   | seed o k l => exact absurd he hgone
@@ -326,34 +323,40 @@ theorem held_entry_leaves_only_when (c : Cfg) (s : Store) (op : Op) (e : Entry) 
 
 /-! ## Distrust discards -/
 
-/-- **Discarded.**  Whenever `distrust()` runs on key set `K` during a step, at the end of the step no
-entry is held under a sender key id in `K`, and every key of `K` is `ManuallyDistrusted`. -/
+/-- **Discarded.**  Whenever `distrust()` runs on key set `K` during a step, at the end of the step no entry in the
+scope of `K` (an own key in `K`, or a key of the entry's owner) is held under a sender key id in `K` — entries of
+other accounts' devices that merely share the key ID stay held (repo commit 845d75c) — and every key of `K` is
+`ManuallyDistrusted`. -/
 theorem distrust_discards (c : Cfg) (s : Store) (op : Op) (K : List (Nat × Nat))
     (h : Ev.dis K ∈ (stepStore c s op).2) :
-    (∀ e ∈ (stepStore c s op).1.postponed, e.sender ∉ K.map (·.2)) ∧
+    (∀ e ∈ (stepStore c s op).1.postponed, e.sender ∈ K.map (·.2) → ¬ InScopeOf c.own K e) ∧
     (∀ r ∈ K, (stepStore c s op).1.level r.1 r.2 = .manDistrusted) := by
   rcases step_good_or_quiet c s op with g | q
   · exact g.dis K h
   · exact absurd h (q.no_dis K)
 
-/-- Manual distrust of key `k` of `o` (not yet `ManuallyDistrusted`) reaches `distrust()`; hence
-nothing is held under sender key id `k` afterwards. -/
+/-- Manual distrust of key `k` of `o` (not yet `ManuallyDistrusted`) reaches `distrust()`; hence afterwards
+nothing about `o`'s keys — nothing at all when `o` is the own account — is held under sender key id `k`. -/
 theorem manual_distrust_discards (c : Cfg) (s : Store) (o : Nat) (a d : List Nat) (k : Nat)
     (hk : k ∈ d) (hl : s.level o k ≠ .manDistrusted) :
-    ∀ e ∈ (stepStore c s (.manual o a d)).1.postponed, e.sender ≠ k := by
+    ∀ e ∈ (stepStore c s (.manual o a d)).1.postponed, e.sender = k → o ≠ c.own ∧ e.owner ≠ o := by
   obtain ⟨K, hK, hm⟩ := manual_dis_event (own := c.own) s o a d k hk hl
   intro e he hs
-  exact (distrust_discards c s (.manual o a d) K hK).1 e he (List.mem_map.mpr ⟨(o, k), hm, hs.symm⟩)
+  have hn := (distrust_discards c s (.manual o a d) K hK).1 e he (List.mem_map.mpr ⟨(o, k), hm, hs.symm⟩)
+  exact ⟨fun h => hn (Or.inl (List.mem_map.mpr ⟨(o, k), hm, h⟩)),
+         fun h => hn (Or.inr (List.mem_map.mpr ⟨(o, k), hm, h.symm⟩))⟩
 
-/-- An authorised message naming in-scope key `k` as distrusted: same. -/
+/-- An authorised message naming in-scope key `k` of `ko.jid` as distrusted: same. -/
 theorem message_distrust_discards (c : Cfg) (s : Store) (m : Msg) (hatm : m.atm = true)
     (hself : ¬ (m.fromAcc = c.own ∧ m.fromRes = c.ownRes))
     (ha : s.level m.fromAcc m.senderKey = .authenticated) (ko : KeyOwner) (hko : ko ∈ m.owners)
     (hq : m.fromAcc = c.own ∨ m.fromAcc = ko.jid) (k : Nat) (hk : k ∈ ko.distrusted) :
-    ∀ e ∈ (stepStore c s (.message m)).1.postponed, e.sender ≠ k := by
+    ∀ e ∈ (stepStore c s (.message m)).1.postponed, e.sender = k → ko.jid ≠ c.own ∧ e.owner ≠ ko.jid := by
   obtain ⟨K, hK, hm⟩ := (message_events c s m ((processed_iff c m).mpr ⟨hatm, hself⟩) ha ko hko hq k).2 hk
   intro e he hs
-  exact (distrust_discards c s (.message m) K hK).1 e he (List.mem_map.mpr ⟨(ko.jid, k), hm, hs.symm⟩)
+  have hn := (distrust_discards c s (.message m) K hK).1 e he (List.mem_map.mpr ⟨(ko.jid, k), hm, hs.symm⟩)
+  exact ⟨fun h => hn (Or.inl (List.mem_map.mpr ⟨(ko.jid, k), hm, h⟩)),
+         fun h => hn (Or.inr (List.mem_map.mpr ⟨(ko.jid, k), hm, h.symm⟩))⟩
 
 /-- **…and never applied later.**  Once nothing is held under sender key id `ks`, then through any
 continuation of the history in which no trust message carrying sender key `ks` arrives, nothing is
@@ -459,7 +462,7 @@ trusted targets (recursively, from the state reached), then `distrust` their dis
 theorem authenticate_recursion_equation (own : Nat) (s : Store) (keys : List (Nat × Nat)) (hk : keys ≠ []) :
     s.authenticate own keys =
       ((((s.beginAuth keys).takeFired (s.fetchQ own keys)).authenticate own
-            (targets (s.fetchQ own keys) true)).1.distrust (targets (s.fetchQ own keys) false),
+            (targets (s.fetchQ own keys) true)).1.distrust own (targets (s.fetchQ own keys) false),
        s.beginAuthEvs keys ++ (s.fetchQ own keys).map Ev.fired ++
        (((s.beginAuth keys).takeFired (s.fetchQ own keys)).authenticate own
             (targets (s.fetchQ own keys) true)).2 ++
@@ -525,17 +528,17 @@ The store keeps no sender account.  None of the following lets anybody move trus
 (`trust_changes_only_if_authorized`), but with one key ID used with two accounts the second sentence of the
 property ("held back and take effect exactly when, and only if, that key later becomes authenticated; …
 distrusted … discarded") fails in these ways; with unshared key IDs none of them can occur.
-* R2, R3 — **recorded as findings**, anybody entitled to decide about one of his own keys can trigger them by
-  NAMING a key ID in a decision: a held decision is dropped unapplied when a fired entry has the same verdict for
-  the same key ID of ANOTHER owner (`C18_defect_cross_account_discard_by_supersession`), or when its sender key ID
-  is distrusted for ANOTHER account (`C18_defect_cross_account_discard_by_distrust`); exact extent:
-  `contact_touches_only_own_held_decisions_partial`, `held_entry_leaves_only_when`.
+* R2 — **recorded as finding** `C18:cross-account-discard`; anybody entitled to decide about one of his own keys can
+  trigger it by NAMING a key ID in a decision: a held decision is dropped unapplied when a fired entry has the same
+  verdict for the same key ID of ANOTHER owner (`C18_defect_cross_account_discard_by_supersession`); exact extent:
+  `contact_touches_only_own_held_decisions_partial`, `held_entry_leaves_only_when`.  (R3, the same through a distrust of
+  the sender key ID for another account, was fixed in 845d75c: `distrust_discards`.)
 * R1, R4 — statistics only, they need two accounts' devices that really hold the same key pair (a SENDER key ID is
   what the decryption layer verified, it cannot be claimed): a decision sent with key id `ks` by account `S` is
-  applied when a key with id `ks` is authenticated — for whatever account — in a batch that also contains an own key
-  or a key of the decision's owner (`InScopeOf`; bound: `postponed_fire_only_if_authenticated`); and another account's
-  unauthenticated message with sender key id `ks` can restate a held decision the other way (last clause of
-  `held_back`).
+  applied — or, on a distrust, discarded — when a key with id `ks` is authenticated / distrusted, for whatever
+  account, in a batch that also contains an own key or a key of the decision's owner (`InScopeOf`; bounds:
+  `postponed_fire_only_if_authenticated`, `distrust_discards`); and another account's unauthenticated message with
+  sender key id `ks` can restate a held decision the other way (last clause of `held_back`).
 The harness counts each kind (`cross_owner_superseded`, `cross_owner_discarded`, `fired_by_key_id_other_account`,
 `cross_owner_overwritten`). -/
 
